@@ -142,5 +142,162 @@ pub open spec fn in_range(p: Seq<usize>, n: int) -> bool { forall|i: int| 0 <= i
             forall|s: int| 0 <= s < x@.len() && (forall|i: int| 0 <= i < r14_i1 ==> p@[i] != s) ==> #[trigger] x@[s] == old(x)@[s],
 //@end
 
+// ------------------------------------------------------------------ value updates of the engine's permuted copy (C08 / C12)
+//@struct file=src/algebra/csc/core.rs name=CscMatrix
+//@struct file=src/qdldl/qdldl.rs name=QDLDLWorkspace
+//@struct file=src/qdldl/qdldl.rs name=QDLDLFactorisation rules=R12
+// entry idx of the user's matrix lives in slot AtoPAPt[idx] of the permuted upper triangle that is factored
+pub open spec fn slot_of(f: QDLDLFactorisation<F>, indices: Seq<usize>, k: int) -> int { f.workspace.AtoPAPt@[indices[k] as int] as int }
+pub open spec fn slots_ok(f: QDLDLFactorisation<F>, indices: Seq<usize>) -> bool {
+    forall|k: int| 0 <= k < indices.len() ==> indices[k] < f.workspace.AtoPAPt@.len() && 0 <= #[trigger] slot_of(f, indices, k) < f.workspace.triuA.nzval@.len()
+}
+pub open spec fn slots_distinct(f: QDLDLFactorisation<F>, indices: Seq<usize>) -> bool {
+    forall|a: int, b: int| 0 <= a < b < indices.len() ==> #[trigger] slot_of(f, indices, a) != #[trigger] slot_of(f, indices, b)
+}
+// everything but the values of the permuted copy is left alone
+pub open spec fn only_values_change(f0: QDLDLFactorisation<F>, f1: QDLDLFactorisation<F>) -> bool {
+    f1 == (QDLDLFactorisation::<F> { workspace: QDLDLWorkspace::<F> { triuA: CscMatrix::<F> { nzval: f1.workspace.triuA.nzval, ..f0.workspace.triuA }, ..f0.workspace }, ..f0 })
+    && f1.workspace.triuA.nzval@.len() == f0.workspace.triuA.nzval@.len()
+}
+pub open spec fn untouched_slot(f: QDLDLFactorisation<F>, indices: Seq<usize>, n: int, s: int) -> bool { forall|k: int| 0 <= k < n ==> #[trigger] slot_of(f, indices, k) != s }
+
+impl QDLDLFactorisation<F> {
+//@fn file=src/qdldl/qdldl.rs in="impl<T> QDLDLFactorisation<T>" name=update_values rules=R1,R3,zipidx:1=i
+//@contract
+    requires slots_ok(*old(self), indices@), values@.len() >= indices@.len(),
+    ensures
+        only_values_change(*old(self), *final(self)),
+        // C08 / C12: the new value of user entry indices[k] is written to its slot of the permuted copy (last writer wins)
+        forall|k: int| 0 <= k < indices@.len() && (forall|k2: int| k < k2 < indices@.len() ==> slot_of(*old(self), indices@, k2) != slot_of(*old(self), indices@, k))
+            ==> final(self).workspace.triuA.nzval@[#[trigger] slot_of(*old(self), indices@, k)] == values@[k],
+        forall|s: int| 0 <= s < old(self).workspace.triuA.nzval@.len() && untouched_slot(*old(self), indices@, indices@.len() as int, s)
+            ==> #[trigger] final(self).workspace.triuA.nzval@[s] == old(self).workspace.triuA.nzval@[s],
+//@loop 1
+        invariant
+            i_ctr == r14_i1, r14_n1 == indices@.len(), values@.len() >= indices@.len(), slots_ok(*old(self), indices@),
+            *AtoPAPt == old(self).workspace.AtoPAPt, nzval@.len() == old(self).workspace.triuA.nzval@.len(),
+            forall|k: int| 0 <= k < i_ctr && (forall|k2: int| k < k2 < i_ctr ==> slot_of(*old(self), indices@, k2) != slot_of(*old(self), indices@, k))
+                ==> nzval@[#[trigger] slot_of(*old(self), indices@, k)] == values@[k],
+            forall|s: int| 0 <= s < nzval@.len() && untouched_slot(*old(self), indices@, i_ctr as int, s) ==> #[trigger] nzval@[s] == old(self).workspace.triuA.nzval@[s],
+//@body_start 1
+            let ghost gk = i_ctr as int;
+            let ghost nz1 = nzval@;
+            proof { assert(0 <= slot_of(*old(self), indices@, gk) < nzval@.len()); }
+//@body_end 1
+            proof {
+                let d = slot_of(*old(self), indices@, gk);
+                assert forall|s: int| 0 <= s < nzval@.len() && untouched_slot(*old(self), indices@, gk + 1, s) implies #[trigger] nzval@[s] == old(self).workspace.triuA.nzval@[s] by {
+                    assert(slot_of(*old(self), indices@, gk) != s);
+                    assert(untouched_slot(*old(self), indices@, gk, s));
+                    assert(nz1[s] == old(self).workspace.triuA.nzval@[s]);
+                }
+                assert forall|k: int| 0 <= k < gk + 1 && (forall|k2: int| k < k2 < gk + 1 ==> slot_of(*old(self), indices@, k2) != slot_of(*old(self), indices@, k))
+                    implies nzval@[#[trigger] slot_of(*old(self), indices@, k)] == values@[k] by {
+                    if k < gk {
+                        assert(slot_of(*old(self), indices@, gk) != slot_of(*old(self), indices@, k));
+                        assert(forall|k2: int| k < k2 < gk ==> slot_of(*old(self), indices@, k2) != slot_of(*old(self), indices@, k));
+                        assert(nz1[slot_of(*old(self), indices@, k)] == values@[k]);
+                    }
+                }
+            }
+//@end
+//@fn file=src/qdldl/qdldl.rs in="impl<T> QDLDLFactorisation<T>" name=scale_values rules=R1,zipidx:1=i
+//@contract
+    requires slots_ok(*old(self), indices@), slots_distinct(*old(self), indices@),
+    ensures
+        only_values_change(*old(self), *final(self)),
+        // each listed entry is scaled exactly once, in its slot of the permuted copy; nothing else changes
+        forall|k: int| 0 <= k < indices@.len() ==> final(self).workspace.triuA.nzval@[#[trigger] slot_of(*old(self), indices@, k)]
+            == f_mul(old(self).workspace.triuA.nzval@[slot_of(*old(self), indices@, k)], scale),
+        forall|s: int| 0 <= s < old(self).workspace.triuA.nzval@.len() && untouched_slot(*old(self), indices@, indices@.len() as int, s)
+            ==> #[trigger] final(self).workspace.triuA.nzval@[s] == old(self).workspace.triuA.nzval@[s],
+//@iter 1
+it
+//@loop 1
+        invariant
+            it.seq().len() == r14_n1, it.seq().len() == indices@.len(), slots_ok(*old(self), indices@), slots_distinct(*old(self), indices@),
+            forall|q: int| 0 <= q < it.seq().len() ==> #[trigger] it.seq()[q] == q,
+            *AtoPAPt == old(self).workspace.AtoPAPt, nzval@.len() == old(self).workspace.triuA.nzval@.len(),
+            forall|k: int| 0 <= k < it.index@ ==> nzval@[#[trigger] slot_of(*old(self), indices@, k)] == f_mul(old(self).workspace.triuA.nzval@[slot_of(*old(self), indices@, k)], scale),
+            forall|k: int| it.index@ <= k < indices@.len() ==> nzval@[#[trigger] slot_of(*old(self), indices@, k)] == old(self).workspace.triuA.nzval@[slot_of(*old(self), indices@, k)],
+            forall|s: int| 0 <= s < nzval@.len() && untouched_slot(*old(self), indices@, indices@.len() as int, s) ==> #[trigger] nzval@[s] == old(self).workspace.triuA.nzval@[s],
+//@body_start 1
+            let ghost gk = r14_i1 as int;
+            let ghost nz1 = nzval@;
+            proof { assert(0 <= slot_of(*old(self), indices@, gk) < nzval@.len()); }
+//@body_end 1
+            proof {
+                assert forall|k: int| 0 <= k < gk implies nzval@[#[trigger] slot_of(*old(self), indices@, k)] == f_mul(old(self).workspace.triuA.nzval@[slot_of(*old(self), indices@, k)], scale) by {
+                    assert(slot_of(*old(self), indices@, k) != slot_of(*old(self), indices@, gk));
+                    assert(nz1[slot_of(*old(self), indices@, k)] == f_mul(old(self).workspace.triuA.nzval@[slot_of(*old(self), indices@, k)], scale));
+                }
+                assert forall|k: int| gk + 1 <= k < indices@.len() implies nzval@[#[trigger] slot_of(*old(self), indices@, k)] == old(self).workspace.triuA.nzval@[slot_of(*old(self), indices@, k)] by {
+                    assert(slot_of(*old(self), indices@, gk) != slot_of(*old(self), indices@, k));
+                    assert(nz1[slot_of(*old(self), indices@, k)] == old(self).workspace.triuA.nzval@[slot_of(*old(self), indices@, k)]);
+                }
+                assert forall|s: int| 0 <= s < nzval@.len() && untouched_slot(*old(self), indices@, indices@.len() as int, s) implies #[trigger] nzval@[s] == old(self).workspace.triuA.nzval@[s] by {
+                    assert(slot_of(*old(self), indices@, gk) != s);
+                    assert(nz1[s] == old(self).workspace.triuA.nzval@[s]);
+                }
+            }
+//@end
+
+//@fn file=src/qdldl/qdldl.rs in="impl<T> QDLDLFactorisation<T>" name=offset_values rules=R1,R6,zipidx:1=ii
+//@contract
+    requires slots_ok(*old(self), indices@), slots_distinct(*old(self), indices@), indices@.len() == signs@.len(),
+    ensures
+        only_values_change(*old(self), *final(self)),
+        // C12 (regularisation shifts): entry k moves by +offset / -offset / not at all according to the sign of signs[k]
+        forall|k: int| 0 <= k < indices@.len() ==> final(self).workspace.triuA.nzval@[#[trigger] slot_of(*old(self), indices@, k)]
+            == shifted(old(self).workspace.triuA.nzval@[slot_of(*old(self), indices@, k)], offset, signs@[k]),
+        forall|s: int| 0 <= s < old(self).workspace.triuA.nzval@.len() && untouched_slot(*old(self), indices@, indices@.len() as int, s)
+            ==> #[trigger] final(self).workspace.triuA.nzval@[s] == old(self).workspace.triuA.nzval@[s],
+//@iter 1
+it
+//@loop 1
+        invariant
+            it.seq().len() == r14_n1, it.seq().len() == indices@.len(), slots_ok(*old(self), indices@), slots_distinct(*old(self), indices@), indices@.len() == signs@.len(),
+            forall|q: int| 0 <= q < it.seq().len() ==> #[trigger] it.seq()[q] == q,
+            *AtoPAPt == old(self).workspace.AtoPAPt, nzval@.len() == old(self).workspace.triuA.nzval@.len(),
+            forall|k: int| 0 <= k < it.index@ ==> nzval@[#[trigger] slot_of(*old(self), indices@, k)] == shifted(old(self).workspace.triuA.nzval@[slot_of(*old(self), indices@, k)], offset, signs@[k]),
+            forall|k: int| it.index@ <= k < indices@.len() ==> nzval@[#[trigger] slot_of(*old(self), indices@, k)] == old(self).workspace.triuA.nzval@[slot_of(*old(self), indices@, k)],
+            forall|s: int| 0 <= s < nzval@.len() && untouched_slot(*old(self), indices@, indices@.len() as int, s) ==> #[trigger] nzval@[s] == old(self).workspace.triuA.nzval@[s],
+//@body_start 1
+            let ghost gk = r14_i1 as int;
+            let ghost nz1 = nzval@;
+            proof { assert(0 <= slot_of(*old(self), indices@, gk) < nzval@.len()); }
+//@body_end 1
+            proof {
+                assert forall|k: int| 0 <= k < gk implies nzval@[#[trigger] slot_of(*old(self), indices@, k)] == shifted(old(self).workspace.triuA.nzval@[slot_of(*old(self), indices@, k)], offset, signs@[k]) by {
+                    assert(slot_of(*old(self), indices@, k) != slot_of(*old(self), indices@, gk));
+                    assert(nz1[slot_of(*old(self), indices@, k)] == shifted(old(self).workspace.triuA.nzval@[slot_of(*old(self), indices@, k)], offset, signs@[k]));
+                }
+                assert forall|k: int| gk + 1 <= k < indices@.len() implies nzval@[#[trigger] slot_of(*old(self), indices@, k)] == old(self).workspace.triuA.nzval@[slot_of(*old(self), indices@, k)] by {
+                    assert(slot_of(*old(self), indices@, gk) != slot_of(*old(self), indices@, k));
+                    assert(nz1[slot_of(*old(self), indices@, k)] == old(self).workspace.triuA.nzval@[slot_of(*old(self), indices@, k)]);
+                }
+                assert forall|s: int| 0 <= s < nzval@.len() && untouched_slot(*old(self), indices@, indices@.len() as int, s) implies #[trigger] nzval@[s] == old(self).workspace.triuA.nzval@[s] by {
+                    assert(slot_of(*old(self), indices@, gk) != s);
+                    assert(nz1[s] == old(self).workspace.triuA.nzval@[s]);
+                }
+            }
+//@end
+
+//@fn file=src/qdldl/qdldl.rs in="impl<T> QDLDLFactorisation<T>" name=solve rules=R1,R6
+//@contract
+    requires
+        !old(self).is_symbolic, old(b)@.len() == old(self).D@.len(),
+        // the factor is in the shape _factor leaves it in, and perm is a permutation of 0..n
+        l_wf(old(b)@.len() as int, old(self).L.colptr@, old(self).L.rowval@, old(self).L.nzval@), old(self).Dinv@.len() >= old(b)@.len(),
+        old(self).workspace.fwork@.len() == old(b)@.len(), old(self).perm@.len() == old(b)@.len(), in_range(old(self).perm@, old(b)@.len() as int),
+    ensures
+        final(b)@.len() == old(b)@.len(),
+        // the factorisation itself is not modified by a solve (only the float workspace is)
+        final(self).L == old(self).L, final(self).D == old(self).D, final(self).Dinv == old(self).Dinv, final(self).perm == old(self).perm,
+        final(self).workspace.triuA == old(self).workspace.triuA, final(self).workspace.AtoPAPt == old(self).workspace.AtoPAPt,
+//@end
+}
+pub open spec fn shifted(v: F, offset: F, sign: i8) -> F { if sign > 0 { f_add(v, offset) } else if sign < 0 { f_sub(v, offset) } else { v } }
+
 } // verus!
 fn main() {}
